@@ -7,6 +7,7 @@ from .. import paths
 from ..core import FUNC, call_attr, calls_in, const, dotted, is_const, kwarg, norm, slice_parts, text, walk_local
 
 EXPLANATION = [
+    'C17.pump-ends: a `while True` read loop of bumble.transport.common that catches Exception and continues has an earlier handler that leaves the loop on IncompleteReadError (end of stream fails immediately and for ever).',
     'C17.one-parser: no method of sdp.DataElementParser creates another DataElementParser: nesting is parsed by the one parser whose depth counter the guard tests.',
     "C17.endpoint-lists: in bumble.avdtp the endpoints' capabilities / configuration lists are only rebound as a whole, never changed in place (slice store, extend, clear, +=): the two may be one list object.",
     'C17.avdtp-restart: in the AVDTP MessageAssembler the branch that abandons an unfinished message on a new START / SINGLE packet does not return: the new packet is processed, so the request after a malformed one is answered.',
@@ -1187,7 +1188,38 @@ def one_parser(ctx):
     R.check(n >= 3, rule, 'bumble.sdp.DataElementParser | methods', f'{n} methods, none creates another parser', f'only {n} methods found')
 
 
+def pump_ends(ctx):
+    """A `while True` loop that awaits a stream reader inside try / except Exception must leave the loop on the reader's
+    end-of-stream error: StreamReader.readexactly() raises IncompleteReadError at once (without suspending) once the stream
+    has ended, so a handler that logs and carries on spins in one event-loop step for ever."""
+    R, p = ctx.r, ctx.p
+    rule = 'C17.pump-ends'
+    m = p.modules.get('bumble.transport.common')
+    if m is None:
+        R.bad(rule, 'bumble.transport.common', 'anchor missing')
+        return
+    n = 0
+    for fn in [x for x in ast.walk(m.tree) if isinstance(x, FUNC)]:
+        for w in [x for x in walk_local(fn) if isinstance(x, ast.While) and isinstance(x.test, ast.Constant) and x.test.value is True]:
+            for t in [x for x in w.body if isinstance(x, ast.Try)]:
+                if not any(isinstance(x, ast.Await) and isinstance(x.value, ast.Call) and call_attr(x.value) in ('next_packet', 'readexactly', 'read', 'readline') for s_ in t.body for x in ast.walk(s_)):
+                    continue
+                n += 1
+                eof_exit = False
+                swallow_all = False
+                for h in t.handlers:
+                    names = ['<bare>'] if h.type is None else [norm(e).split('.')[-1] for e in (h.type.elts if isinstance(h.type, ast.Tuple) else [h.type])]
+                    leaves = any(isinstance(x, (ast.Break, ast.Return, ast.Raise)) for x in ast.walk(h))
+                    if set(names) & {'IncompleteReadError', 'EOFError'} and leaves:
+                        eof_exit = True
+                    if set(names) & {'Exception', 'BaseException', '<bare>'} and not leaves and not eof_exit:
+                        swallow_all = True
+                R.check(not swallow_all, rule, f'{p.qual_of(w)} | end of stream', 'the end-of-stream error leaves the loop before the catch-all handler', f'the loop in {fn.name} swallows every exception of the awaited read and goes round again: at end of stream the read fails immediately, every time, and the loop never yields to the event loop (the whole process freezes)', f'{m.rel}:{w.lineno}')
+    R.check(n >= 1, rule, 'bumble.transport.common | read loops', f'{n}', 'no read loop found (anchor)')
+
+
 RULES = [
+    ('C17.pump-ends', pump_ends),
     ('C17.one-parser', one_parser),
     ('C17.endpoint-lists', endpoint_lists),
     ('C17.avdtp-restart', avdtp_restart),
